@@ -1056,6 +1056,135 @@ def tilted(case):
                           'the Burgers vector is %s (|ratio| %.6f)' % (label, smult, acc.tolist(), b.tolist(), float(acc @ b / (b @ b)))))
     return fails
 
+# --------------------------------------------------------------------------
+# box-shaped boundary region of rotated cells whose two non-periodic face pairs are NOT perpendicular to each other
+# (out-of-plane box vector tilted towards m): the 'stated box region' is the cell shrunk by the width measured
+# perpendicular to each of the four faces
+
+TB_SYSTEMS = [('hcp', [-1 / 3, 2 / 3, -1 / 3, 0], [-1, 2, -1, 0], [1, 0, -1, 1], 'hcp <a> screw on (10-11)'),
+              ('hcp', [-1 / 3, 2 / 3, -1 / 3, 0], [-1, -1, 2, 3], [1, 0, -1, 1], 'hcp <a> mixed on (10-11), line <c+a>')] + TILTED
+TB_SIZES = [(1, 8, 8), (1, 6, 10)]
+TB_WIDTHS = [6.0, 10.0, 13.5]
+
+
+@chk.clause('tilted-boundary')
+def tilted_boundary(case):
+    name, b_uvw, xi, hkl, label = TB_SYSTEMS[case['sys']]
+    u, C, setting = crystal(name)
+    d = Dislocation(u, C, np.array(b_uvw, float), xi, hkl, conventional_setting=setting)
+    li, mo = d.lineindex, d.motionindex
+    smult = [0, 0, 0]
+    smult[li], smult[mo], smult[3 - li - mo] = TB_SIZES[case['size']]
+    width = TB_WIDTHS[case['width']]
+    shape = ['box', 'cylinder'][case['shape']]
+    g = {'li': li}
+    V0 = np.array(smult)[:, None] * np.array(d.rcell.box.vects)
+    if not width < 0.8 * half_width(g, am.Box(vects=V0, origin=-(V0[mo] + V0[3 - li - mo]) / 2)):
+        chk.note('tilted-boundary-width-too-large-not-generated')
+        return []
+    base, disl = d.monopole(sizemults=smult, boundaryshape=shape, boundarywidth=width, return_base_system=True)
+    chk.note('constructions')
+    V = np.array(base.box.vects)
+    nrm = [np.cross(V[(i + 1) % 3], V[(i + 2) % 3]) for i in range(3) if i != li]
+    cosang = abs(nrm[0] @ nrm[1]) / np.linalg.norm(nrm[0]) / np.linalg.norm(nrm[1])
+    if cosang > 1e-6:
+        chk.note('tilted-boundary-non-perpendicular-faces')
+    if base.natoms != disl.natoms:
+        return [Fail(key='tilted-boundary-natoms', msg='monopole changed the atom count')]
+    if not width < 0.85 * half_width(g, base.box):
+        return [Fail(key='tilted-boundary-harness', msg='base system box is not the centred supercell of the rotated cell')]
+    dp = np.array(disl.atoms.pos)
+    out, exempt, radius = region_outside(g, base.box, dp, shape, width)
+    bt, dt = np.array(base.atoms.atype), np.array(disl.atoms.atype)
+    nt = len(u.symbols)
+    exp = bt + nt * out
+    bad = (dt != exp) & ~exempt
+    chk.note('boundary-atoms', int(out.sum()))
+    chk.note('interior-atoms', int((~out).sum()))
+    chk.note('atoms-compared', len(dp))
+    fails = []
+    if bad.any():
+        i = int(np.argmax(bad))
+        fails.append(Fail(key='tilted-boundary-types', msg='%s, sizes %s: %d atoms mistyped w.r.t. the %s region of width %g'
+                          % (label, smult, int(bad.sum()), shape, width), atom=i, pos=dp[i], observed=int(dt[i]), expected=int(exp[i])))
+    return fails
+
+
+# --------------------------------------------------------------------------
+# the same construction under another working length unit, in ONE process: every length handed to the library and every
+# default length of the library is in working units, so the two constructions are the same crystal in other numbers
+
+UNIT_LENGTHS = ['nm', 'pm']
+UNIT_SYSTEMS = [('fcc', [.5, 0, -.5], [1, -2, 1], [1, 1, 1], 'fcc 111 edge', (1, 20, 10)),
+                ('fcc', [.5, -.5, 0], [1, 0, -1], [1, 1, 1], 'fcc 111 60deg', (1, 16, 8)),
+                ('bcc', [.5, .5, .5], [1, -2, 1], [1, 0, -1], 'bcc 10-1 edge', (1, 12, 8))]
+
+
+@chk.clause('units')
+def units(case):
+    import atomman.unitconvert as uc
+    name, b_uvw, xi, hkl, label, sizes = UNIT_SYSTEMS[case['sys']]
+    lu = UNIT_LENGTHS[case['lu']]
+    kind = ['array', 'array-linear', 'monopole-box'][case['kind']]
+    fails = []
+
+    def construct():
+        u0, C0, setting = crystal(name)
+        # the menu crystal is defined in angstrom and eV/angstrom^3: re-express it in the working units of the moment
+        f = uc.set_in_units(1.0, 'angstrom')
+        p = uc.set_in_units(1.0, 'eV/angstrom^3')
+        u = am.System(atoms=am.Atoms(atype=np.array(u0.atoms.atype), pos=np.array(u0.atoms.pos) * f),
+                      box=am.Box(vects=np.array(u0.box.vects) * f), symbols=u0.symbols)
+        d = Dislocation(u, am.ElasticConstants(Cij=np.array(C0.Cij) * p), b_uvw, xi, hkl, conventional_setting=setting)
+        sm = [0, 0, 0]
+        sm[d.lineindex], sm[d.motionindex], sm[d.cutindex] = sizes
+        if kind == 'monopole-box':
+            base, disl = d.monopole(sizemults=sm, boundaryshape='box', return_base_system=True)    # default boundarywidth
+        else:
+            base, disl = d.periodicarray(sizemults=sm, linear=(kind == 'array-linear'), return_base_system=True)
+        return (np.array(disl.atoms.pos) / f, np.array(disl.atoms.atype), np.array(disl.box.vects) / f,
+                np.array(base.atoms.pos) / f, tuple(bool(x) for x in disl.pbc), np.array(disl.box.origin) / f)
+
+    uc.reset_units(length='angstrom', mass='amu', energy='eV', charge='e')
+    try:
+        try:
+            ref = construct()
+        except ValueError:
+            chk.note('units-refused-in-default-units')
+            return []
+        chk.note('constructions')
+        uc.reset_units(length=lu, mass='amu', energy='eV', charge='e')
+        try:
+            got = construct()
+        except ValueError as e:
+            return [Fail(key='units-refused', msg='%s, %s: built under angstrom, refused under %s as working length unit: %s'
+                         % (label, kind, lu, str(e)[:200]))]
+        chk.note('constructions')
+    finally:
+        uc.reset_units(length='angstrom', mass='amu', energy='eV', charge='e')
+    chk.note('atoms-compared', len(ref[0]))
+    if len(got[0]) != len(ref[0]):
+        return [Fail(key='units-natoms', msg='%s, %s: %d atoms under angstrom, %d under %s' % (label, kind, len(ref[0]), len(got[0]), lu))]
+    if got[4] != ref[4]:
+        return [Fail(key='units-pbc', msg='periodicity differs', observed=got[4], expected=ref[4])]
+    pbc = ref[4]
+    # the cell along the periodic directions (the extent of the box along a non-periodic direction is no part of the
+    # statement; the library pads it by a length in working units)
+    for i in range(3):
+        if pbc[i] and not np.abs(got[2][i] - ref[2][i]).max() <= 1e-7:
+            fails.append(Fail(key='units-box', msg='%s, %s: periodic box vector %d (in angstrom) differs by %.3g between the working units'
+                              % (label, kind, i, np.abs(got[2][i] - ref[2][i]).max())))
+    if fails:
+        return fails
+    # (positions are not compared across working units: the anisotropic displacement field contains ln r with r a number
+    #  in working units, so the two constructions differ by a rigid translation, and which of two coinciding atoms of an
+    #  array is deleted may differ; both are outside the statement.  Counts per atom type are compared for arrays, whose
+    #  construction does not re-type atoms.)
+    if kind != 'monopole-box' and sorted(got[1].tolist()) != sorted(ref[1].tolist()):
+        fails.append(Fail(key='units-types', msg='%s, %s: atoms per type differ between the construction under angstrom and under %s' % (label, kind, lu)))
+    return fails
+
+
 def g_natoms(d, mult):
     return d.rcell.natoms * int(np.prod(mult))
 
@@ -1086,6 +1215,15 @@ def gen():
             if mi == 0 and si < len(TILTED):
                 for sz in range(len(TILTED_SIZES)):
                     yield 'tilted', {'sys': si, 'size': sz}
+            if mi == 0 and si < len(UNIT_SYSTEMS):
+                for lu in range(len(UNIT_LENGTHS)):
+                    for kd in range(3):
+                        yield 'units', {'sys': si, 'lu': lu, 'kind': kd}
+            if mi == 0 and si < len(TB_SYSTEMS):
+                for sz in range(len(TB_SIZES)):
+                    for w in range(len(TB_WIDTHS)):
+                        for sh in range(2):
+                            yield 'tilted-boundary', {'sys': si, 'size': sz, 'width': w, 'shape': sh}
             if si in LIVE_SYSTEMS and mi in LIVE_MN:
                 yield 'live', {'sys': si, 'mn': mi}
             for kind in range(4):        # list, tuple, list reused, None
